@@ -1,8 +1,9 @@
 (* Extraction of the tokenizer model (topic lexer, C15) to OCaml.  ExtrOcamlBasic only. *)
 From Coq Require Import Extraction ExtrOcamlBasic.
 From Coq Require Import NArith ZArith List.
-From GV Require Import model.Utf8 model.Lexer.
+From GV Require Import model.Utf8 model.Lexer model.ParserSkel.
 Extraction "extract/lexer_model.ml"
   BinInt.Z.of_N  (* ocaml/prelude.ml mentions the type z *)
   Utf8.encode Utf8.decode Utf8.blen
-  Lexer.tokenize Lexer.keyword_from_str Lexer.str_slice Lexer.str_from Lexer.arm_of.
+  Lexer.tokenize Lexer.keyword_from_str Lexer.str_slice Lexer.str_from Lexer.arm_of
+  ParserSkel.parse_expr ParserSkel.tag_codes ParserSkel.nested_parens ParserSkel.nested_minus.
